@@ -161,6 +161,16 @@ def run(R, tier):
         R.case(('named', nm), True)
         if dict(A1.canon2bin) != dict(A2.canon2bin) or list(A1.signature) != list(A2.signature) or A1.signs != A2.signs:
             viol('named-constructor', f'Algebra.fromname({nm!r}) differs from Algebra{pqr} with the same basis', name=nm)
+        # the numbering of the generators comes from the basis: an explicit start_index does not change the algebra
+        for si in (0, 1, 2):
+            try:
+                A3 = Algebra.fromname(nm, start_index=si)
+                ok3 = dict(A3.canon2bin) == dict(A1.canon2bin) and [int(x_) for x_ in A3.signature] == [int(x_) for x_ in A1.signature] and (A1.d > 6 or A3.signs == A1.signs)
+            except Exception as e:  # noqa
+                ok3 = False
+            R.case(('named-start', nm, si), True)
+            if not ok3:
+                viol('named-constructor', f'Algebra.fromname({nm!r}, start_index={si}) is not the algebra Algebra.fromname({nm!r}) (the generators of a custom basis are numbered by their names)', name=nm, start_index=si)
     # rejection: operands from algebras whose metric or basis differ must not be combined silently
     pool = [('Algebra(2)', Algebra(2)), ('Algebra(1,1)', Algebra(1, 1)), ('Algebra(signature=[-1,1])', Algebra(signature=[-1, 1])),
             ('Algebra(signature=[1,-1])', Algebra(signature=[1, -1])), ('Algebra(2,0,1)', Algebra(2, 0, 1)), ('2DPGA', Algebra.fromname('2DPGA')),
